@@ -91,18 +91,22 @@ def spec(tier, seed):
     two = [(5, [(0, 1, 1, 1), (1, 1, 0, 0)], [0, 3], 0, "fwd"), (4, [(0, 1, 0, 0), (0, 0, 1, 0)], [0, 3], 0, "fwd"),
            (5, [(1, 1, 1, 1), (1, 1, 1, 1)], [0, 2], 0, "fwd")]
     ch1 = rotate(one, seed, 5) if q else one
-    ch2 = two[:1] if q else two
+    ch2 = [] if q else two     # two hunks with exact+recon+back exceed 14 GB (measured): thorough tier, 30 GB cap
     for (n, sh, ls, f, d) in ch1:
         inst.append(apply_inst("c01l3", n, sh, ls, f, d, ["exact", "recon", "back"], "C01 lemma 3: exact diff applies at offset 0 fuzz 0, gives B; reversed gives A", mem_gb=8))
     for (n, sh, ls, f, d) in ch2:
-        inst.append(apply_inst("c01l3", n, sh, ls, f, d, ["exact", "recon", "back"], "C01 lemma 3: two hunks", mem_gb=14, timeout=2400))
+        inst.append(apply_inst("c01l3", n, sh, ls, f, d, ["exact", "recon", "back"], "C01 lemma 3: two hunks", mem_gb=30, timeout=3000))
     for kc in (True, False):
         for dn in (True, False):
             inst.append(Instance("c01l3_%s_%s" % ("create" if kc else "delete", "devnull" if dn else "named"), "patch",
                                  "cd_exact(%s, %s)" % (str(kc).lower(), str(dn).lower()), unwind=6, unwindset={"memcmp.0": 3}, features=True, cap=4,
                                  mem_gb=4, timeout_s=900, sub="C01 lemma 3: create / delete kinds", params=dict(kind="create" if kc else "delete", absent_side_is_devnull=dn)))
+    from . import _mir
     return {
         "instances": inst,
+        # lemma 3 for several hunks rests on the hand-over between hunks (two-hunk instances do not fit the quick tier)
+        "mir_vcs": [{"name": "apply_modify: offset and frozen line handed from one hunk to the next", "function": "apply_modify", "target": "lib",
+                     "run": lambda f, v, w: _mir.vc_apply_bookkeeping(f, v, w)}],
         "level": "model_checking",
         "functions": ["parse_hunk", "parse_hunk_header", "parse_hunk_line", "parse_patch", "parse_filepatch", "FilePatchMetadata::recognize_kind / build_filepatch",
                       "parse_filename", "FilePatch::strip", "TextFilePatch::apply (apply_modify / apply_create / apply_delete)", "try_apply_hunk", "split_lines_with_endings"],
@@ -117,3 +121,8 @@ def spec(tier, seed):
                     "the thorough tier attempts three dialects under a 30 GB cap); the sub-parsers themselves are C11's subject", "bytes on disk after save (I/O)", "hunk texts longer than 5 lines, more than two hunks per file", "git binary patches (refused)"],
         "explanation": "chain of solver-decided lemmas from diff text to patched content, each interface asserted in full",
     }
+
+
+def replay_candidate(v, work, log):
+    from .. import replay
+    return replay.replay_by_sweep("C01", v, work, log)
